@@ -187,6 +187,35 @@ def c09():
     }
 
 
+def _c02_search(seed, tier, failures):
+    import suite_hist
+    import suite_sub
+    import suite_rebuild
+    for kind, d in failures:
+        if isinstance(d, dict) and "sub_case" in d:
+            v = suite_sub.sub_violation(d["sub_case"])
+            if v:
+                return {"sub_case": d["sub_case"], "violation": v,
+                        "how": "harness/suite_sub.py: sub_violation(sub_case)"}
+    if any(isinstance(d, dict) and "rebuild_case" in d for _, d in failures):
+        hit = suite_rebuild.search(seed, tier, [f for f in failures if isinstance(f[1], dict) and "rebuild_case" in f[1]])
+        if hit:
+            return hit
+    return suite_hist.search_hist("C02")(seed, tier, failures) or suite_rebuild.search(seed, tier, [])
+
+
+def _c02_replay(payload):
+    import suite_hist
+    import suite_sub
+    import suite_rebuild
+    fi = payload.get("failing_input") or {}
+    if "sub_case" in fi:
+        return suite_sub.sub_violation(fi["sub_case"]) is None
+    if "rebuild_case" in fi:
+        return suite_rebuild.replay(payload)
+    return suite_hist.replay_hist("C02")(payload)
+
+
 def c02():
     import suite_hist
     import suite_sub
@@ -198,8 +227,8 @@ def c02():
                      "C02_exact_labels", "C02_labels_nonvacuous"],
         "suites": [suite_sub.suite_sub, suite_hist.suite_boundary, suite_hist.suite_tree_walk,
                    suite_hist.suite_seq_refine("C02"), __import__('suite_rebuild').suite_rebuild],
-        "search": (lambda seed, tier, failures: __import__('suite_rebuild').search(seed, tier, [f for f in failures if isinstance(f[1], dict) and "rebuild_case" in f[1]]) if any(isinstance(f[1], dict) and "rebuild_case" in f[1] for f in failures) else (suite_hist.search_hist("C02")(seed, tier, failures) or __import__('suite_rebuild').search(seed, tier, []))),
-        "replay": (lambda payload: __import__('suite_rebuild').replay(payload) if "rebuild_case" in (payload.get("failing_input") or {}) else suite_hist.replay_hist("C02")(payload)),
+        "search": _c02_search,
+        "replay": _c02_replay,
         "level": "proof",
         "rule": HIST_RULE + "; sub-unit stream: _BFSubcluster construct/update/merge with counts in "
                 "{1..3,127,128,254..257,65534..65537,2^32-2..2^32+1,2^40} comparing values and dtype; "
